@@ -155,6 +155,19 @@ func Current() *Task { return cur }
 // sized by the harness from the instrumenter's site count).
 var YieldSites []uint32
 
+// WriteSite is OR-ed into the site id of yields that sit right before a
+// statement writing through a selector, index or pointer.
+const WriteSite = 1 << 31
+
+// WriteHook, when set by the harness, is asked at every such yield whether the
+// running task should be pre-empted right there: the instants just before a
+// write to possibly shared memory are where "write, ..., write back" windows
+// open and close.
+var WriteHook func() bool
+
+// WriteYields counts executed write-yields (coverage statistic).
+var WriteYields uint64
+
 // Yield is the scheduling seam.  Inserted by the instrumenter; never called by
 // hand.
 func Yield(site uint32) {
@@ -169,7 +182,12 @@ func Yield(site uint32) {
 		panic(StepLimit{Steps: t.OpSteps, Site: site})
 	}
 	t.Budget--
-	if t.Budget > 0 {
+	if site&WriteSite != 0 {
+		WriteYields++
+		if t.Budget > 0 && (WriteHook == nil || !WriteHook()) {
+			return
+		}
+	} else if t.Budget > 0 {
 		return
 	}
 	cur = nil
@@ -222,6 +240,8 @@ func ResetRun() {
 	PoolGets, PoolDrops, SyncPoints = 0, 0, 0
 	PoolChoice = func(n int) int { return n - 1 }
 	SyncHook = nil
+	WriteHook = nil
+	WriteYields = 0
 	DrainPools()
 	resetRaces()
 }
